@@ -180,11 +180,16 @@ Definition number (decls : list N) : idmap :=
   fold_left (fun m id => m_insert m id (m_len m)) decls [].
 
 (* CanonicalReplacer::from_program *)
-Definition replacer := ns -> idmap.
-Definition from_program (p : program) : replacer := fun k => number (declared k p).
+Record replacer := { type_ids : idmap; function_ids : idmap; libfunc_ids : idmap }.
+Definition from_program (p : program) : replacer :=
+  {| type_ids := number (declared NsType p);
+     function_ids := number (declared NsFunc p);
+     libfunc_ids := number (declared NsLibfunc p) |}.
+Definition rmap (r : replacer) (k : ns) : idmap :=
+  match k with NsType => type_ids r | NsLibfunc => libfunc_ids r | NsFunc => function_ids r end.
 
 (* replace_*_id: `*self.<ns>_ids.get(id).expect("Unexpected <ns> id.")` *)
-Definition lookup (r : replacer) (k : ns) (i : N) : option N := m_get (r k) i.
+Definition lookup (r : replacer) (k : ns) (i : N) : option N := m_get (rmap r k) i.
 
 Definition is_some {A} (o : option A) : bool := match o with Some _ => true | None => false end.
 Definition or0 (o : option N) : N := match o with Some v => v | None => 0 end.
@@ -200,7 +205,7 @@ Definition apply (r : replacer) (p : program) : result :=
   | None => Ok (map_ids (fun k i => or0 (lookup r k i)) p)
   end.
 
-Definition canon (p : program) : result := apply (from_program p) p.
+Definition canon (p : program) : result := let r := from_program p in apply r p.
 
 (* ---------- hypotheses of the theorems ---------- *)
 Definition injective_on (S : list occ) (s : renaming) : Prop :=
